@@ -128,6 +128,59 @@ func genBounds(r *vlib.Rand, wild bool) []float64 {
 	return bs
 }
 
+// genLongBounds: 11-40 strictly increasing boundaries (histograms large enough
+// for any size-dependent code path), steps from one ulp to powers of two.
+func genLongBounds(r *vlib.Rand) []float64 {
+	n := 11 + r.Intn(30)
+	bs := make([]float64, 0, n)
+	cur := vlib.Pick(r, []float64{-40, -3.5, math.Copysign(0, -1), 0, 5e-324, 0.001, 0.5, 1, 1e6})
+	for i := 0; i < n; i++ {
+		bs = append(bs, cur)
+		next := cur
+		switch r.Intn(6) {
+		case 0:
+			next = math.Nextafter(cur, math.Inf(1))
+		case 1:
+			next = cur + 1
+		case 2:
+			next = cur*2 + 1
+		default:
+			next = cur + float64(1+r.Intn(16))*0.0625
+		}
+		if !(next > cur) {
+			next = math.Nextafter(cur, math.Inf(1))
+		}
+		cur = next
+	}
+	return bs
+}
+
+// boundaryObs: every upper bound exactly, the float just below and the float
+// just above it, in a shuffled order, plus the non-finite values.
+func boundaryObs(r *vlib.Rand, maxes []float64) []float64 {
+	var vs []float64
+	for _, b := range maxes {
+		if b != b || math.IsInf(b, 0) {
+			continue
+		}
+		vs = append(vs, b, math.Nextafter(b, math.Inf(-1)), math.Nextafter(b, math.Inf(1)))
+	}
+	vs = append(vs, math.NaN(), math.Inf(1), math.Inf(-1))
+	for i := len(vs) - 1; i > 0; i-- {
+		j := r.Intn(i + 1)
+		vs[i], vs[j] = vs[j], vs[i]
+	}
+	return vs
+}
+
+func maxesOf(rs []datum.Range) []float64 {
+	m := make([]float64, len(rs))
+	for i, x := range rs {
+		m[i] = x.Max
+	}
+	return m
+}
+
 func genObs(r *vlib.Rand, maxes []float64, n int) []float64 {
 	pool := []float64{-1e308, -3, -0.5, math.Copysign(0, -1), 0, 0.25, 1, 7, 1e308,
 		math.Inf(1), math.Inf(-1), math.NaN(), math.SmallestNonzeroFloat64, math.MaxFloat64}
@@ -415,6 +468,15 @@ func scrape(store *metrics.Store) (map[string]scraped, error) {
 }
 
 func runExp(out *vlib.Out, r *vlib.Rand, bs []float64) {
+	runExpWith(out, r, bs, func(maxes []float64) []float64 { return genObs(r, maxes, 1+r.Intn(10)) })
+}
+
+// runExpLong: the same with an observation at, below and above every boundary.
+func runExpLong(out *vlib.Out, r *vlib.Rand, bs []float64) {
+	runExpWith(out, r, bs, func(maxes []float64) []float64 { return boundaryObs(r, maxes) })
+}
+
+func runExpWith(out *vlib.Out, r *vlib.Rand, bs []float64, obsFor func([]float64) []float64) {
 	texts := make([]string, len(bs))
 	declared := make([]float64, len(bs))
 	for i, b := range bs {
@@ -460,7 +522,7 @@ func runExp(out *vlib.Out, r *vlib.Rand, bs []float64) {
 		if err != nil {
 			panic(err)
 		}
-		vs := genObs(r, maxes, 1+r.Intn(10))
+		vs := obsFor(maxes)
 		obs[l] = vs
 		for k, v := range vs {
 			datum.Observe(d, v, time.Unix(int64(2000+k), 0))
@@ -661,6 +723,41 @@ func main() {
 		}
 		runExp(out, r, clean)
 	}
+	// long histograms (11-40 boundaries): declaration through the code generator
+	// and through program text, then an observation exactly at, just below and
+	// just above EVERY boundary - on the datum directly, through the exposition,
+	// and with the ranges handed to the store API
+	nLong := 24
+	if a.Thorough() {
+		nLong = 400
+	}
+	for i := 0; i < nLong; i++ {
+		bs := genLongBounds(r)
+		rs, _, ok := declAST(bs, nil)
+		addDecl(out, "ast-long", "", bs, rs, ok)
+		if !ok {
+			continue
+		}
+		runObs(out, rs, boundaryObs(r, maxesOf(rs)))
+		switch i % 3 {
+		case 0:
+			runExpRanges(out, rs, boundaryObs(r, maxesOf(rs)))
+		case 1:
+			rev := append([]datum.Range(nil), rs...)
+			for x, y := 0, len(rev)-1; x < y; x, y = x+1, y-1 {
+				rev[x], rev[y] = rev[y], rev[x]
+			}
+			runExpRanges(out, rev, boundaryObs(r, maxesOf(rs)))
+		default:
+			clean := bs[:0:0]
+			for _, b := range bs {
+				if !(b == 0 && math.Signbit(b)) {
+					clean = append(clean, b)
+				}
+			}
+			runExpLong(out, r, clean)
+		}
+	}
 	// ranges handed to the store API in any order, through the exposition
 	nExpR := 150
 	if a.Thorough() {
@@ -703,7 +800,7 @@ func main() {
 		}
 		runExpRanges(out, rs, genObs(r, maxes, 1+r.Intn(10)))
 	}
-	out.Flush("decl: boundary lists of length 0-6 (negative, zero, -0, denormal, adjacent floats, unsorted, NaN/Inf) through the real code generator, non-trivial when accepted; obs: sequences of 1-14 observations at/just below/just above every bound plus negatives, infinities and NaN on a real Buckets datum, non-trivial when >= 2 observations include a value equal to a bound or a non-finite value; exp: program text compiled, observed and scraped through a prometheus registry, non-trivial when >= 2 observations; expr: the same for a metric whose ranges are given to the store API ascending, descending or shuffled (+Inf anywhere or appended by MakeBuckets)", false)
+	out.Flush("decl: boundary lists of length 0-6 and long ones of 11-40 (with an observation exactly at, just below and just above every boundary, on the datum, through the exposition and through the store API) (negative, zero, -0, denormal, adjacent floats, unsorted, NaN/Inf) through the real code generator, non-trivial when accepted; obs: sequences of 1-14 observations at/just below/just above every bound plus negatives, infinities and NaN on a real Buckets datum, non-trivial when >= 2 observations include a value equal to a bound or a non-finite value; exp: program text compiled, observed and scraped through a prometheus registry, non-trivial when >= 2 observations; expr: the same for a metric whose ranges are given to the store API ascending, descending or shuffled (+Inf anywhere or appended by MakeBuckets)", false)
 }
 
 func replay(path string) {
